@@ -45,5 +45,8 @@ def short(b, n=24):
         if len(b) <= n:
             return b.hex()
         return "%s..(%d bytes)" % (bytes(b[:n]).hex(), len(b))
-    s = repr(b)
+    try:
+        s = repr(b)
+    except Exception as e:
+        s = "<%s: repr raised %r>" % (type(b).__name__, e)
     return s if len(s) <= 4 * n else s[:4 * n] + "..."
